@@ -28,7 +28,18 @@
 //      reduce+expand, singleNetwork}; each answer == answer on a fresh graph, by-value calls leave the graph alone
 //   M  breakIntoSimpleMotifs on connected graphs: beads partitioned, every bond either inside
 //      exactly one simple motif or recorded exactly once in the connector (lossless)
+//   J  history with REJECTED operations on ONE BeadStructure / BeadMotif ("state after a reported error"): the
+//      construction event list of a small molecule with up to 2 calls the API must refuse (ConnectBeads with one /
+//      both ids unknown or a self connection, AddBead with an id that exists, getSubStructure with an unknown bead /
+//      bond, getNeighBeadIds of an unknown id) placed at every position, queries before / directly after the
+//      rejected call / after the next valid operation; oracle: the refusal is reported (exception) and the object is
+//      observably the FRESH object built from the successful operations only
+//   T  (lower-case letters) the same for ONE tools::Graph / ReducedGraph: exploreGraph / singleNetwork from an
+//      unknown start vertex, getDegree / getNode of an unknown vertex, exploreBranch with unknown start / unknown
+//      edge / edge not containing the start, ReducedGraph::expandEdge of an unknown edge, ReducedGraph constructed
+//      with a missing node
 #include <algorithm>
+#include <cstring>
 #include <numeric>
 #include <stdexcept>
 
@@ -105,7 +116,18 @@ struct Case {
   char scope = 0;   // D enumeration: '3' universe n<=3, '4' universe n<=4, 'S' same graph
   std::vector<int> cuts;  // H: positions in the construction event list after which a query is made (a final query follows the last event)
   std::string q;          // H: one query letter per cut + final (S,E,B,C);  T: operation letters (F,X,Y,D,R,N) applied to ONE Graph object
+  // J: rejected calls placed into the construction event list
+  struct Rej { int pos; char type; int i, j; };  // before valid event number pos; vertex index >= n = an id that is never added
+  std::vector<Rej> rej;
+  int sched = 0;     // J: bit0 query before every rejected call, bit1 directly after it, bit2 after the next valid operation
+  char obj = 'S';    // J: S BeadStructure, M BeadMotif
 };
+static std::string rejstr(const std::vector<Case::Rej> &r) {
+  std::string s;
+  for (size_t k = 0; k < r.size(); k++)
+    s += (k ? "," : "") + std::to_string(r[k].pos) + ":" + r[k].type + ":" + std::to_string(r[k].i) + ":" + std::to_string(r[k].j);
+  return s;
+}
 
 static Base fromMask(int n, unsigned mask) {
   Base b;
@@ -148,7 +170,8 @@ static std::string casestr(const Case &c) {
            ";e2=" + estr(c.g2.e) + ";a2=" + c.g2.attr;
   return std::string(1, c.kind) + ";n=" + std::to_string(c.g.n) + ";e=" + estr(c.g.e) + ";a=" + c.g.attr +
          ";p=" + vstr(c.x.perm) + ";ids=" + std::to_string(c.x.ids) + ";eo=" + vstr(c.x.eo) + ";vo=" + std::to_string(c.x.vo) +
-         (c.kind == 'H' ? ";cuts=" + vstr(c.cuts) + ";q=" + c.q : c.kind == 'T' ? ";q=" + c.q : "");
+         (c.kind == 'H' ? ";cuts=" + vstr(c.cuts) + ";q=" + c.q : c.kind == 'T' ? ";q=" + c.q :
+          c.kind == 'J' ? std::string(";obj=") + c.obj + ";rej=" + rejstr(c.rej) + ";sched=" + std::to_string(c.sched) + ";q=" + c.q : "");
 }
 static Case parsecase(const std::string &s) {
   Case c;
@@ -168,6 +191,16 @@ static Case parsecase(const std::string &s) {
     c.x.vo = atoi(m["vo"].c_str());
     c.cuts = parseV(m["cuts"]);
     c.q = m["q"];
+    if (c.kind == 'J') {
+      c.obj = m["obj"].empty() ? 'S' : m["obj"][0];
+      c.sched = atoi(m["sched"].c_str());
+      if (!m["rej"].empty())
+        for (auto &t : bsx::split(m["rej"], ',')) {
+          auto f = bsx::split(t, ':');
+          if (f.size() != 4 || f[1].size() != 1) throw std::runtime_error("harness: bad rej= field");
+          c.rej.push_back({atoi(f[0].c_str()), f[1][0], atoi(f[2].c_str()), atoi(f[3].c_str())});
+        }
+    }
   }
   return c;
 }
@@ -586,6 +619,225 @@ static void checkHistory(const Case &c, Summary &S) {
     havePrev = true; prevI = PI; prevMs = ms;
   }
 }
+// ---- J: histories with REJECTED operations on ONE BeadStructure / BeadMotif.  The rejected calls are removed to get the
+//         reference: after [valid and rejected operations] the object must be observably the FRESH object built from the
+//         valid operations only, and every call the unchanged API refuses must be reported (exception).
+static std::string rejClass(const Case::Rej &r, const std::set<int> &have) {
+  switch (r.type) {
+    case 'c': return r.i == r.j ? (have.count(r.i) ? "connect-self" : "connect-self-unknown")
+                                : (have.count(r.i) || have.count(r.j)) ? "connect-one-unknown" : "connect-both-unknown";
+    case 'a': return "add-duplicate-id";
+    case 'g': return "neighbours-of-unknown";
+    case 's': return "substructure-unknown-bead";
+    case 't': return "substructure-unknown-bond";
+    default: throw std::runtime_error("harness: bad rejected operation type");
+  }
+}
+template <class BS>
+static void checkErrHistory(const Case &c, Summary &S, std::string &counts) {
+  Inst I = present(c.g, c.x);
+  std::vector<Ev> ev = events(I);
+  const int n = c.g.n;
+  auto idOf = [&](int v) -> Index {
+    if (v < 0 || v >= 12) throw std::runtime_error("harness: bad vertex index in rejected operation");
+    return v < n ? I.id[v] : IDSET[c.x.ids][v];  // perm maps 0..n-1 onto entries 0..n-1 of the id row: entries >= n are never added
+  };
+  if (c.q.size() != 1 || std::string("SEBN").find(c.q[0]) == std::string::npos) throw std::runtime_error("harness: bad query letter");
+  BS H;
+  size_t pos = 0;
+  std::set<int> have;             // base vertices whose bead has been added
+  std::set<IP> bonds;             // bonds added so far (base vertex indices, i<j)
+  std::set<std::string> opcl;     // classes of the rejected calls made so far (part of the failure key)
+  int nrej = 0, reported = 0, neighEmpty = 0, neighThrew = 0, neighOther = 0, queries = 0;
+  auto tag = [&]() { std::string t; for (auto &k : opcl) t += (t.empty() ? "" : "+") + k; return "errhist[" + t + "]-"; };
+
+  // full or partial observation of H against the reference content after the first `pos` valid events
+  auto observe = [&](const std::string &which, const std::string &when) {
+    Base pb; Inst PI;
+    partial(I, ev, pos, pb, PI);
+    if (pb.n == 0) return;  // nothing is asked of an empty structure
+    Ref R(pb);
+    std::string at = " (" + when + ", " + std::to_string(pos) + " valid construction events and " + std::to_string(nrej) + " rejected calls made)";
+    queries++;
+    try {
+      for (char w : which) switch (w) {
+        case 'S': {
+          bool expectSingle = R.connected && !R.isolated;
+          for (int rep = 0; rep < 2; rep++)
+            if (H.isSingleStructure() != expectSingle)
+              FAIL(tag() + "single-structure", std::string("isSingleStructure() = ") + (expectSingle ? "false" : "true") + ", the structure built from the successful operations only is " + (R.connected ? "connected" : "disconnected") + (R.isolated ? " with isolated bead" : "") + at);
+          S.sid += expectSingle ? "S1" : "S0";
+          break;
+        }
+        case 'E': {
+          BeadStructure F = mkBS(PI);
+          if (!H.isStructureEquivalent(F)) FAIL(tag() + "equiv-fresh-rejected", "H.isStructureEquivalent(F) = false, F = fresh structure built from the successful operations only" + at);
+          if (!F.isStructureEquivalent(H)) FAIL(tag() + "equiv-fresh-rejected-reverse", "F.isStructureEquivalent(H) = false, F = fresh structure built from the successful operations only" + at);
+          if (!H.isStructureEquivalent(H)) FAIL(tag() + "equiv-not-reflexive", "the structure is not equivalent to itself" + at);
+          BS copy = H;
+          if (!copy.isStructureEquivalent(F) || !F.isStructureEquivalent(copy)) FAIL(tag() + "copy-differs-from-fresh", "a copy of the structure is not equivalent to the fresh structure" + at);
+          S.sid += "E";
+          break;
+        }
+        case 'B': {
+          std::vector<BeadStructure> st2 = breakIntoStructures(H);
+          std::vector<std::pair<std::vector<Index>, std::vector<EP>>> parts;
+          for (BeadStructure &b : st2) {
+            std::vector<EP> es;
+            for (Edge &e : b.getGraph().getEdges()) es.push_back(ep(e));
+            parts.push_back({b.getBeadIds(), es});
+          }
+          checkPartition((tag() + "break-structures").c_str(), PI, R, parts);
+          S.sid += "B" + std::to_string(parts.size());
+          break;
+        }
+        case 'N': {
+          if ((int)H.BeadCount() != pb.n) FAIL(tag() + "bead-count", "BeadCount() = " + std::to_string(H.BeadCount()) + ", " + std::to_string(pb.n) + " beads were added successfully" + at);
+          std::set<Index> ids;
+          for (Index v : H.getBeadIds()) ids.insert(v);
+          if (ids != PI.vset) FAIL(tag() + "bead-ids", "getBeadIds() is not the set of successfully added beads" + at);
+          for (int v = 0; v < 12; v++) {
+            bool in = v < n && have.count(v);
+            if (H.BeadExist(idOf(v)) != in) FAIL(tag() + "bead-exist", "BeadExist(" + std::to_string(idOf(v)) + ") = " + (in ? "false" : "true") + at);
+          }
+          for (int v = 0; v < pb.n; v++) {
+            std::set<Index> expect, got;
+            for (auto &e : PI.eset) { if (e.first == PI.id[v]) expect.insert(e.second); if (e.second == PI.id[v]) expect.insert(e.first); }
+            std::vector<Index> nb = H.getNeighBeadIds(PI.id[v]);
+            for (Index x : nb) got.insert(x);
+            if (got != expect || nb.size() != expect.size()) {
+              std::string g, x;
+              for (Index i : nb) g += " " + std::to_string(i);
+              for (Index i : expect) x += " " + std::to_string(i);
+              FAIL(tag() + "neighbours", "getNeighBeadIds(" + std::to_string(PI.id[v]) + ") = {" + g + " }, bonds made successfully give {" + x + " }" + at);
+            }
+          }
+          Graph g = H.getGraph();
+          std::set<Index> vs;
+          for (Index v : g.getVertices()) vs.insert(v);
+          std::vector<EP> es;
+          for (Edge &e : g.getEdges()) es.push_back(ep(e));
+          std::sort(es.begin(), es.end());
+          if (vs != PI.vset) FAIL(tag() + "graph-vertices", "getGraph() has a vertex set different from the successfully added beads" + at);
+          if (es != std::vector<EP>(PI.eset.begin(), PI.eset.end())) {
+            std::string g2;
+            for (auto &e : es) g2 += " " + epstr(e);
+            FAIL(tag() + "graph-edges", "getGraph() has edges {" + g2 + " }, successfully made bonds are {" + [&]() { std::string x; for (auto &e : PI.eset) x += " " + epstr(e); return x; }() + " }" + at);
+          }
+          S.sid += "N";
+          break;
+        }
+        case 'Y': {  // BeadMotif only: the cached motif type equals the type of a fresh motif with the same content
+          BeadStructure F = mkBS(PI);
+          BeadMotif FM(F);
+          BeadMotif::MotifType tf = FM.getType();
+          BeadMotif::MotifType th = static_cast<BeadMotif &>(static_cast<BeadStructure &>(H)).getType();
+          if (tf != th) FAIL(tag() + "motif-type", "getType() = " + std::to_string((int)th) + ", a fresh motif built from the successful operations only has type " + std::to_string((int)tf) + at);
+          S.sid += "Y" + std::to_string((int)th);
+          break;
+        }
+        default: throw std::runtime_error("harness: bad query letter");
+      }
+    } catch (const Fail &) {
+      throw;
+    } catch (const std::exception &e) {
+      if (std::string(e.what()).rfind("harness:", 0) == 0) throw;
+      FAIL(tag() + "query-threw", std::string("a query on the structure threw: ") + e.what() + at);
+    }
+  };
+  const bool motif = std::is_same<BS, BeadMotif>::value;
+  const std::string q = c.q + (motif && c.q == "E" ? "Y" : "");
+  std::string all = c.q;
+  for (char w : std::string("SEBN")) if (w != c.q[0]) all += w;
+  if (motif) all += "Y";
+
+  auto doRejected = [&](const Case::Rej &r) {
+    Ref R(c.g);
+    std::string cl = rejClass(r, have), what;
+    bool in_i = r.i < n && have.count(r.i), in_j = r.j < n && have.count(r.j);
+    bool threw = false;
+    std::string exc;
+    nrej++;
+    try {
+      switch (r.type) {
+        case 'c':
+          if (r.i != r.j && in_i && in_j) throw std::runtime_error("harness: ConnectBeads call would be valid");
+          what = "ConnectBeads(" + std::to_string(idOf(r.i)) + "," + std::to_string(idOf(r.j)) + ")";
+          opcl.insert(cl);
+          H.ConnectBeads(idOf(r.i), idOf(r.j));
+          break;
+        case 'a': {
+          if (!in_i) throw std::runtime_error("harness: AddBead call would be valid");
+          char other = I.attr[r.i] == '9' ? '6' : '9';  // other name AND other mass than the stored bead
+          what = "AddBead(id " + std::to_string(idOf(r.i)) + " again, name " + attrOf(other).name + ")";
+          opcl.insert(cl);
+          H.AddBead(TB{idOf(r.i), attrOf(other).mass, attrOf(other).name});
+          break;
+        }
+        case 'g': {
+          if (in_j) throw std::runtime_error("harness: getNeighBeadIds call would be valid");
+          what = "getNeighBeadIds(" + std::to_string(idOf(r.j)) + ")";
+          opcl.insert(cl);
+          std::vector<Index> nb = H.getNeighBeadIds(idOf(r.j));
+          (nb.empty() ? neighEmpty : neighOther)++;  // the unchanged tree returns an empty list; no demand is made on the answer
+          return;
+        }
+        case 's': {
+          if (in_j) throw std::runtime_error("harness: getSubStructure call would be valid");
+          what = "getSubStructure({" + std::to_string(idOf(r.i)) + "," + std::to_string(idOf(r.j)) + "},{})";
+          opcl.insert(cl);
+          std::vector<Index> ids{idOf(r.i)};
+          if (r.j != r.i) ids.push_back(idOf(r.j));
+          BeadStructure sub = H.getSubStructure(ids, {});
+          break;
+        }
+        case 't': {
+          if (!in_i || !in_j || r.i == r.j || bonds.count({std::min(r.i, r.j), std::max(r.i, r.j)})) throw std::runtime_error("harness: getSubStructure call would be valid");
+          what = "getSubStructure({" + std::to_string(idOf(r.i)) + "," + std::to_string(idOf(r.j)) + "},{" + std::to_string(idOf(r.i)) + "-" + std::to_string(idOf(r.j)) + "})";
+          opcl.insert(cl);
+          BeadStructure sub = H.getSubStructure({idOf(r.i), idOf(r.j)}, {Edge(idOf(r.i), idOf(r.j))});
+          break;
+        }
+        default: throw std::runtime_error("harness: bad rejected operation type");
+      }
+    } catch (const std::exception &e) {
+      if (std::string(e.what()).rfind("harness:", 0) == 0) throw;
+      threw = true;
+      exc = e.what();
+    }
+    if (r.type == 'g') { neighThrew++; return; }
+    if (!threw)
+      FAIL(tag() + "rejected-call-not-reported", what + " returned normally after " + std::to_string(pos) + " valid construction events and " + std::to_string(nrej - 1) + " earlier rejected calls; the call cannot be carried out and the unchanged library throws");
+    reported++;
+    S.sid += std::string("!") + r.type;
+  };
+
+  bool afterNext = false;
+  for (;;) {
+    for (size_t k = 0; k < c.rej.size(); k++) {
+      if (c.rej[k].pos != (int)pos) continue;
+      if (c.sched & 1) observe(q, "query before rejected call " + std::to_string(k + 1));
+      doRejected(c.rej[k]);
+      if (c.sched & 2) observe(q, "query directly after rejected call " + std::to_string(k + 1));
+      if (c.sched & 4) afterNext = true;
+    }
+    if (pos >= ev.size()) break;
+    if (ev[pos].bead) {
+      H.AddBead(TB{I.id[ev[pos].v], attrOf(I.attr[ev[pos].v]).mass, attrOf(I.attr[ev[pos].v]).name});
+      have.insert(ev[pos].v);
+    } else {
+      if (pos % 2) H.ConnectBeads(I.id[ev[pos].e.second], I.id[ev[pos].e.first]);
+      else H.ConnectBeads(I.id[ev[pos].e.first], I.id[ev[pos].e.second]);
+      bonds.insert({std::min(ev[pos].e.first, ev[pos].e.second), std::max(ev[pos].e.first, ev[pos].e.second)});
+    }
+    pos++;
+    if (afterNext) { observe(q, "query after the valid operation that followed a rejected call"); afterNext = false; }
+  }
+  for (auto &r : c.rej) if (r.pos < 0 || r.pos > (int)ev.size()) throw std::runtime_error("harness: rejected call placed outside the history");
+  observe(all, "final queries");
+  counts = " rejected_reported=" + std::to_string(reported) + " neigh_unknown_empty=" + std::to_string(neighEmpty) + " neigh_unknown_threw=" + std::to_string(neighThrew) +
+           " neigh_unknown_nonempty=" + std::to_string(neighOther) + " queries=" + std::to_string(queries);
+}
 // ---- T: several operations applied to ONE tools::Graph object; every answer must equal the answer on a fresh graph
 static void checkToolsHistory(const Case &c, Summary &S) {
   Inst I = present(c.g, c.x);
@@ -593,7 +845,7 @@ static void checkToolsHistory(const Case &c, Summary &S) {
   Graph g = mkGraph(I);
   Graph f = g;
   const std::string freshId = findStructureId<GraphDistVisitor>(f);
-  int step = 0;
+  int step = 0, nrejected = 0;
   bool foreignLabels = false;  // a Dist exploration left labels on the graph; on a DISCONNECTED graph the vertices it cannot reach
                                // keep older labels, and what findStructureId makes of such node contents is not specified
   for (char op : c.q) {
@@ -633,8 +885,64 @@ static void checkToolsHistory(const Case &c, Summary &S) {
         if (singleNetwork(g, bf) != expect) FAIL("reuse-single-network", std::string("singleNetwork = ") + (expect ? "false" : "true") + at);
         break;
       }
+      // ---- calls the API must refuse: reported (exception) and the Graph object stays exactly as it was
+      case 'x': case 'n': case 'g': case 'o': case 'b': case 'c': case 'e': case 'r': {
+        const Index F1 = IDSET[c.x.ids][R.n], F2 = IDSET[c.x.ids][R.n + 1];  // ids that are not in the graph
+        std::string call;
+        bool threw = false;
+        try {
+          switch (op) {
+            case 'x': { call = "exploreGraph from unknown start vertex"; GraphDistVisitor v; v.setStartingVertex(F1); exploreGraph(g, v); break; }
+            case 'n': { call = "singleNetwork from unknown start vertex"; Graph_BF_Visitor bf; bf.setStartingVertex(F1); singleNetwork(g, bf); break; }
+            case 'g': { call = "getDegree(unknown vertex)"; g.getDegree(F1); break; }
+            case 'o': { call = "getNode(unknown vertex)"; g.getNode(F1); break; }
+            case 'b': { call = "exploreBranch(unknown start vertex)"; Edge e = I.e.empty() ? Edge(I.id[0], F1) : Edge(I.id[I.e[0].first], I.id[I.e[0].second]); exploreBranch(g, F1, e); break; }
+            case 'c': { call = "exploreBranch(edge that is not in the graph)"; exploreBranch(g, I.id[0], Edge(I.id[0], F1)); break; }
+            case 'e': {
+              call = "exploreBranch(edge that does not contain the start vertex)";
+              int v = -1;
+              if (!I.e.empty())
+                for (int t = 0; t < R.n; t++) if (t != I.e[0].first && t != I.e[0].second) { v = t; break; }
+              if (v < 0) throw std::runtime_error("harness: operation e needs an edge and a third vertex");
+              exploreBranch(g, I.id[v], Edge(I.id[I.e[0].first], I.id[I.e[0].second]));
+              break;
+            }
+            case 'r': {
+              call = "ReducedGraph::expandEdge(unknown edge)";
+              ReducedGraph rg = reduceGraph(g);
+              bool t1 = false;
+              try { rg.expandEdge(Edge(F1, F2)); } catch (const std::exception &) { t1 = true; }
+              if (!t1) FAIL("rejected-graph-call-not-reported/expand-edge", call + " returned normally" + at);
+              // the reduced graph is still the reduced graph: expanding gives the original vertex and edge sets
+              Graph ex = rg.expandGraph();
+              std::set<Index> vs; for (Index v : ex.getVertices()) vs.insert(v);
+              std::set<EP> es; for (Edge &e : ex.getEdges()) es.insert(ep(e));
+              if (vs != I.vset || es != I.eset) FAIL("errhist-reduced-graph-changed-by-rejected-call", "expandGraph() after a rejected expandEdge() no longer returns the original vertex and edge sets" + at);
+              call = "ReducedGraph(edges, nodes) with fewer nodes than vertices";
+              std::unordered_map<Index, GraphNode> nodes;
+              nodes[I.id[0]] = mkNode(I.attr[0]);
+              t1 = false;
+              try { ReducedGraph bad(std::vector<ReducedEdge>{ReducedEdge(I.id[0], F1)}, nodes); } catch (const std::exception &) { t1 = true; }
+              if (!t1) FAIL("rejected-graph-call-not-reported/reduced-graph-fewer-nodes", call + " returned normally" + at);
+              call = "ReducedGraph(edges, nodes) with a vertex that has no node";
+              nodes[F2] = mkNode(I.attr[0]);
+              ReducedGraph bad2(std::vector<ReducedEdge>{ReducedEdge(I.id[0], F1)}, nodes);
+              break;
+            }
+          }
+        } catch (const Fail &) {
+          throw;
+        } catch (const std::exception &e) {
+          if (std::string(e.what()).rfind("harness:", 0) == 0) throw;
+          threw = true;
+        }
+        if (!threw) FAIL(std::string("rejected-graph-call-not-reported/") + (op == 'x' ? "explore-graph" : op == 'n' ? "single-network" : op == 'g' ? "get-degree" : op == 'o' ? "get-node" : op == 'r' ? "reduced-graph-missing-node" : "explore-branch"), call + " returned normally" + at);
+        nrejected++;
+        break;
+      }
       default: throw std::runtime_error("harness: bad operation letter");
     }
+    if (op >= 'a' && op <= 'z' && g.getId() != before) FAIL("errhist-graph-node-contents-changed-by-rejected-call", "node contents (labels) of the graph changed although the call was refused" + at);
     if ((op == 'D' || op == 'R' || op == 'N') && g.getId() != before) FAIL("reuse-input-graph-modified", "node contents of the caller's graph changed" + at);
     std::set<Index> vs;
     for (Index v : g.getVertices()) vs.insert(v);
@@ -642,7 +950,7 @@ static void checkToolsHistory(const Case &c, Summary &S) {
     for (Edge &e : g.getEdges()) es.insert(ep(e));
     if (vs != I.vset || es != I.eset) FAIL("reuse-graph-structure-modified", "vertex or edge set of the graph object changed" + at);
   }
-  S.sid = "T" + c.q + "|" + freshId + (S.leak ? " labelleak=1" : "");
+  S.sid = "T" + c.q + "|" + freshId + (S.leak ? " labelleak=1" : "") + (nrejected ? " rejected_reported=" + std::to_string(nrejected) : "");
 }
 
 // ---- D: different (name,mass) multisets must be reported different
@@ -729,10 +1037,22 @@ static bsx::Outcome run(const Case &c) {
         stage = "reuse-history"; checkHistory(c, S);
         o.extra = "history " + S.sid;
         o.cls = bsx::fnv("H" + S.sid);
+      } else if (c.kind == 'J') {
+        stage = "error-history";
+        std::string counts;
+        if (c.obj == 'M') checkErrHistory<BeadMotif>(c, S, counts);
+        else if (c.obj == 'S') checkErrHistory<BeadStructure>(c, S, counts);
+        else throw std::runtime_error("harness: bad obj=");
+        o.extra = "error-history " + S.sid + counts;
+        o.cls = bsx::fnv("J" + S.sid);
       } else if (c.kind == 'T') {
         stage = "reuse-tools"; checkToolsHistory(c, S);
         o.extra = S.sid;
-        o.cls = bsx::fnv(S.sid);
+        {
+          std::string valid;
+          for (char ch : c.q) if (ch >= 'A' && ch <= 'Z') valid += ch;
+          o.cls = valid.size() == c.q.size() ? bsx::fnv(S.sid) : bsx::fnv("Trej" + valid + S.sid.substr(S.sid.find('|')));
+        }
       } else if (c.kind == 'M') {
         stage = "simple-motifs"; checkSimpleMotifs(I, R, S);
         o.extra = S.sid + " n=" + std::to_string(S.ncomp);
@@ -914,7 +1234,7 @@ int main(int argc, char **argv) {
   bsx::Report R;
   R.property = "C16"; R.part = "graph"; R.tier = a.tier;
   bool thorough = a.tier == "thorough";
-  R.max_samples = 10;
+  R.max_samples = 12;
 
   std::vector<Case> cases;
   long long gi = 0;  // global case index (identical in every shard)
@@ -1122,7 +1442,123 @@ int main(int argc, char **argv) {
       }
     }
   }
-  famcount["HT"] = gi - g0;
+  famcount["HT"] = gi - g0; g0 = gi;
+  // ---- J, T with rejected calls: "state after a reported error".  Every call the API refuses is put at every position of the
+  //      small histories; the reference is the history without the rejected calls.
+  {
+    std::vector<Base> all4;  // every graph on 1..4 vertices
+    for (int n = 1; n <= 4; n++)
+      for (unsigned mask = 0; mask < (1u << (n * (n - 1) / 2)); mask++) all4.push_back(fromMask(n, mask));
+    auto mkb = [&](int n, std::vector<IP> e) { Base b; b.n = n; std::sort(e.begin(), e.end()); b.e = e; b.attr = std::string(n, '0'); return b; };
+    // molecule alphabet: lone bead, dimer, chain3, ring3, chain4, ring4, star4, two dimers (two components), chain3 + lone bead (molecule + ion)
+    std::vector<Base> mol{mkb(1, {}), mkb(2, {{0, 1}}), mkb(3, {{0, 1}, {1, 2}}), mkb(3, {{0, 1}, {0, 2}, {1, 2}}), mkb(4, {{0, 1}, {1, 2}, {2, 3}}),
+                          mkb(4, {{0, 1}, {0, 3}, {1, 2}, {2, 3}}), mkb(4, {{0, 1}, {0, 2}, {0, 3}}), mkb(4, {{0, 1}, {2, 3}}), mkb(4, {{0, 1}, {1, 2}})};
+    std::vector<Base> more{mkb(5, {{0, 1}, {0, 2}, {1, 2}, {3, 4}}), mkb(5, {{0, 1}, {0, 2}, {0, 3}, {0, 4}}), mkb(6, {{0, 1}, {0, 3}, {1, 2}, {2, 3}, {4, 5}}),
+                           mkb(6, {{0, 1}, {0, 2}, {0, 3}})};  // thorough: triangle+dimer, star5, ring4+dimer, star4+2 lone beads
+    auto isMol = [&](const Base &b) { for (auto &m : mol) if (m.n == b.n && m.e == b.e) return true; return false; };
+    auto rejAt = [&](const Base &b, const std::vector<Ev> &ev, int pos, bool canonical) {
+      std::vector<Case::Rej> r;
+      std::vector<int> P, U;  // beads present before event pos (in order of addition); unknown ids: future beads in order of addition, then two ids that are never added
+      std::set<IP> bonds;
+      for (int k = 0; k < (int)ev.size(); k++) {
+        if (ev[k].bead) (k < pos ? P : U).push_back(ev[k].v);
+        else if (k < pos) bonds.insert({std::min(ev[k].e.first, ev[k].e.second), std::max(ev[k].e.first, ev[k].e.second)});
+      }
+      U.push_back(b.n); U.push_back(b.n + 1);
+      if (canonical) {
+        if (!P.empty()) { r.push_back({pos, 'c', P.back(), U[0]}); r.push_back({pos, 'c', U[0], P[0]}); }
+        r.push_back({pos, 'c', U[0], U[1]});
+        if (!P.empty()) { r.push_back({pos, 'c', P.back(), P.back()}); r.push_back({pos, 'a', P[0], P[0]}); }
+        r.push_back({pos, 'g', U[0], U[0]});
+        r.push_back({pos, 's', P.empty() ? U[0] : P[0], U[0]});
+        return r;
+      }
+      size_t nu = U.size() - 1;
+      for (int i : P) for (size_t k = 0; k < nu; k++) { r.push_back({pos, 'c', i, U[k]}); r.push_back({pos, 'c', U[k], i}); }
+      for (size_t k = 0; k < U.size(); k++) for (size_t l = k + 1; l < U.size(); l++) r.push_back({pos, 'c', U[k], U[l]});
+      for (int i : P) r.push_back({pos, 'c', i, i});
+      r.push_back({pos, 'c', U[0], U[0]});
+      for (int i : P) r.push_back({pos, 'a', i, i});
+      for (size_t k = 0; k < nu; k++) r.push_back({pos, 'g', U[k], U[k]});
+      for (size_t k = 0; k < nu; k++) r.push_back({pos, 's', P.empty() ? U[k] : P[0], U[k]});
+      for (int i = 0; i < b.n; i++) for (int j = i + 1; j < b.n; j++)
+        if (std::count(P.begin(), P.end(), i) && std::count(P.begin(), P.end(), j) && !bonds.count({i, j})) r.push_back({pos, 't', i, j});
+      return r;
+    };
+    auto presentation = [&](Case &c, const Base &b, size_t bi, int pr) {
+      auto perms = fixedPerms(b.n, 4);
+      auto eos = edgeOrders((int)b.e.size(), false);
+      c.g = b; c.g.attr = ((bi + pr) % 2) ? patternAttr(b.n) : std::string(b.n, '0');
+      c.x.perm = perms[(bi + pr) % perms.size()]; c.x.ids = int((bi + 2 * pr) % NIDSETS); c.x.eo = eos[(bi / 2 + pr) % eos.size()]; c.x.vo = int((bi / 3 + pr) % 2);
+    };
+    const std::string Q = "SEBN";
+    // J1: ONE rejected call, every argument choice, at every position; query schedule 0..7; every query letter
+    std::vector<Base> j1;
+    for (auto &b : all4) if (thorough || b.n <= 3 || isMol(b)) j1.push_back(b);
+    if (thorough) j1.insert(j1.end(), more.begin(), more.end());
+    for (size_t bi = 0; bi < j1.size(); bi++)
+      for (int pr = 0; pr < (thorough ? 3 : 2); pr++) {
+        Case c; c.kind = 'J';
+        presentation(c, j1[bi], bi, pr);
+        std::vector<Ev> ev = events(present(c.g, c.x));
+        for (int pos = 0; pos <= (int)ev.size(); pos++)
+          for (auto &r : rejAt(c.g, ev, pos, false))
+            for (int sched = 0; sched < 8; sched++) {
+              if (pos == 0 && (sched & 3)) continue;                  // nothing to ask of an empty structure
+              if (pos == (int)ev.size() && (sched & 4)) continue;     // no valid operation follows
+              for (char q : Q)
+                for (char obj : std::string(isMol(c.g) && c.g.n >= 3 && (thorough || q == 'E') ? "SM" : "S")) {
+                  if (sched == 0 && q != 'S' && pos == (int)ev.size()) continue;  // without intermediate query and valid operation the letter only rotates the final queries
+                  c.rej = {r}; c.sched = sched; c.q = std::string(1, q); c.obj = obj; push(c);
+                }
+            }
+      }
+    famcount["J1"] = gi - g0; g0 = gi;
+    // J2: TWO rejected calls (canonical arguments: newest/oldest known bead, next bead(s) to come or ids that never come), all pairs of
+    //     placements incl. the same call twice
+    for (size_t bi = 0; bi < mol.size(); bi++)
+      for (int pr = 0; pr < (thorough ? 2 : 1); pr++) {
+        Case c; c.kind = 'J';
+        presentation(c, mol[bi], bi + 1, pr);
+        std::vector<Ev> ev = events(present(c.g, c.x));
+        std::vector<Case::Rej> ops;
+        for (int pos = 0; pos <= (int)ev.size(); pos++) for (auto &r : rejAt(c.g, ev, pos, true)) ops.push_back(r);
+        for (auto &r1 : ops) for (auto &r2 : ops) {
+          if (r2.pos < r1.pos) continue;
+          for (int sched : (thorough ? std::vector<int>{0, 1, 2, 3, 4, 5, 6, 7} : std::vector<int>{0, 1, 2, 4})) {
+            if (r2.pos == 0 && (sched & 3)) continue;
+            if (r1.pos == (int)ev.size() && (sched & 4)) continue;
+            for (char q : std::string(thorough ? "SEBN" : "SE"))
+              for (char obj : std::string(thorough && q == 'E' ? "SM" : "S")) { c.rej = {r1, r2}; c.sched = sched; c.q = std::string(1, q); c.obj = obj; push(c); }
+          }
+        }
+      }
+    famcount["J2"] = gi - g0; g0 = gi;
+    // T with rejected calls on ONE tools::Graph: valid, rejected, valid / rejected, valid / valid, rejected, rejected, valid
+    const std::string OPS = "FXYDRN", REJ = "xngobcer";
+    std::vector<Base> tb = all4;
+    tb.insert(tb.end(), more.begin(), more.end());
+    for (size_t bi = 0; bi < tb.size(); bi++)
+      for (int pr = 0; pr < (thorough ? 2 : 1); pr++) {
+        Case c; c.kind = 'T';
+        presentation(c, tb[bi], bi, pr);
+        for (char r1 : REJ) {
+          if (r1 == 'e' && (c.g.e.empty() || c.g.n < 3)) continue;  // needs an edge and a vertex that is not on it
+          for (char o2 : OPS) {
+            c.q = std::string() + r1 + o2; push(c);
+            for (char o1 : OPS) {
+              c.q = std::string() + o1 + r1 + o2; push(c);
+              if (thorough || isMol(c.g))
+                for (char r2 : REJ) {
+                  if (r2 == 'e' && (c.g.e.empty() || c.g.n < 3)) continue;
+                  c.q = std::string() + o1 + r1 + r2 + o2; push(c);
+                }
+            }
+          }
+        }
+      }
+    famcount["Trej"] = gi - g0;
+  }
 
   R.rule =
       "alphabet: every simple undirected graph on 1..5 labelled vertices (1+2+8+64+1024) and all 32768 on 6 vertices, plus " +
@@ -1144,12 +1580,25 @@ int main(int argc, char **argv) {
       "isStructureEquivalent vs fresh/self/earlier content, breakIntoStructures, copy} after every stage; T: all pairs (thorough triples) of "
       "{findStructureId, Dist exploration from first/last vertex, decouple, reduce+expand, singleNetwork} on ONE Graph object) over all graphs on <=4 vertices "
       "+ 8 graphs on 5..6 vertices, oracle reused object == fresh object with the same content. "
+      "state after a reported error (J: ONE BeadStructure / BeadMotif is taken through the construction event list of a small molecule with 1 or 2 calls the API refuses - "
+      "ConnectBeads with one / both ids unknown (future beads or ids that never come, both argument orders) or a self connection, AddBead with an existing id and other name+mass, "
+      "getSubStructure with an unknown bead / a bond that does not exist (yet), getNeighBeadIds of an unknown id - at EVERY position; one rejected call: every argument choice, "
+      "all graphs on <=3 vertices + molecule alphabet {lone bead, dimer, chain3, ring3, chain4, ring4, star4, two dimers, chain3 + lone bead} (thorough: all graphs on <=4 vertices + 4 on 5..6), "
+      "2 (3) presentations, query schedule = every subset of {before the rejected call, directly after it, after the next valid operation}, query letter from {isSingleStructure, "
+      "isStructureEquivalent+copy (+ BeadMotif::getType), breakIntoStructures, getNeighBeadIds/BeadCount/getBeadIds/BeadExist/getGraph}, all of them at the end; two rejected calls: all ordered pairs of "
+      "placements (also the same call twice) of 7 canonical calls on the molecule alphabet; T with lower-case letters: exploreGraph / singleNetwork from an unknown start, getDegree / getNode of an unknown "
+      "vertex, exploreBranch with unknown start / unknown edge / edge without the start vertex, ReducedGraph::expandEdge of an unknown edge and ReducedGraph built with a missing node, placed "
+      "before / between all pairs of valid operations, two of them between the pairs on the molecule alphabet (thorough: everywhere); oracle: every such call throws - except getNeighBeadIds of an unknown id, "
+      "which the unchanged library answers with an empty list: counted, no demand - and the object is observably the FRESH object built from the successful operations only: equivalent both ways, same "
+      "isSingleStructure, same components, same neighbour sets / bead ids / graph vertices and edges, Graph id and vertex/edge sets unchanged). "
       "distinct_nontrivial = distinct (structure id, #components, #reduced edges) signatures / motif type multisets reached";
   R.assumptions.push_back("reduce/expand is compared as vertex and edge SETS (statement wording); edges returned with multiplicity > 1 are only counted (counter expand_duplicate_edge_cases)");
   R.assumptions.push_back("unreachable vertices are not required to carry or lack a Dist label; non-isomorphic graphs with equal (name,mass) multisets may be reported either way");
   R.assumptions.push_back("reuse: findStructureId on a Graph object must equal the fresh answer when the graph is connected or no explicit Dist exploration preceded it; on a disconnected graph "
                           "that still carries Dist labels of an earlier exploration from another component the id may differ (labels are node content) - counted, not failed; "
                           "visitor objects are single-use (no reset in the API), their reuse is not checked");
+  R.assumptions.push_back("rejected calls: 'reported' = any std::exception (the unchanged Release build throws invalid_argument / runtime_error / out_of_range); calls whose precondition is only an assert "
+                          "(Graph::setNode of an unknown vertex, Graph built with an edge to a vertex without node) are not reported by a Release build and are not in the alphabet");
   R.assumptions.push_back("breakIntoSimpleMotifs is only called on connected structures (its documented domain); its lossless-partition clause is this harness' reading of 'decomposition is lossless'");
 
   // Crash / hang containment: every case runs in a forked child with an alarm.  A family whose cases keep
@@ -1184,8 +1633,20 @@ int main(int argc, char **argv) {
     if (c.kind == 'D' && o.extra.rfind("pairs=", 0) == 0) R.counters["D_pairs_compared"] += atoll(o.extra.c_str() + 6);
     if (o.extra.find("dupedges=") != std::string::npos) R.counters["expand_duplicate_edge_cases"]++;
     if (o.extra.find("labelleak=") != std::string::npos) R.counters["stale_dist_labels_changed_structure_id_cases_unspecified"]++;
+    auto num = [&](const char *name) { size_t p = o.extra.find(std::string(" ") + name + "="); return p == std::string::npos ? 0LL : atoll(o.extra.c_str() + p + strlen(name) + 2); };
+    if (c.kind == 'J' || c.kind == 'T') {
+      R.counters[c.kind == 'J' ? "errhist_beadstructure_rejected_calls_reported" : "errhist_graph_rejected_calls_reported"] += num("rejected_reported");
+      if (c.kind == 'J') {
+        R.counters["errhist_neighbours_of_unknown_bead_returned_empty_no_demand"] += num("neigh_unknown_empty");
+        R.counters["errhist_neighbours_of_unknown_bead_threw_no_demand"] += num("neigh_unknown_threw");
+        R.counters["errhist_neighbours_of_unknown_bead_returned_ids_no_demand"] += num("neigh_unknown_nonempty");
+        R.counters["errhist_queries_compared_with_fresh_object"] += num("queries");
+        R.counters[c.rej.size() == 1 ? "cases_J_one_rejected_call" : "cases_J_two_rejected_calls"]++;
+        if (c.obj == 'M') R.counters["cases_J_on_BeadMotif"]++;
+      }
+    }
     // a few written-out cases
-    if ((c.kind == 'G' && c.g.n >= 5 && (i % 9973) == 7) || (c.kind == 'M' && (i % 401) == 3) || (c.kind == 'A' && (i % 20011) == 5) || ((c.kind == 'H' || c.kind == 'T') && (i % 5003) == 11))
+    if ((c.kind == 'G' && c.g.n >= 5 && (i % 9973) == 7) || (c.kind == 'M' && (i % 401) == 3) || (c.kind == 'A' && (i % 20011) == 5) || ((c.kind == 'H' || c.kind == 'T') && (i % 5003) == 11) || (c.kind == 'J' && (i % 4001) == 17))
       R.sample(casestr(c) + " -> " + o.extra);
   };
   bsx::contained(0, nonD, fn, on, 10);
